@@ -274,3 +274,4 @@ register(
             "fn slice_suggest_option_order(a: &SuggestOption, b: &SuggestOption) -> Ordering {"),
     suffix="}",
 )
+
